@@ -2608,12 +2608,15 @@ class VM:
         else:
             # Uncaught exception
             if isinstance(exc, str):
-                raise JSError(exc)
+                error = JSError(exc)
             elif isinstance(exc, JSObject):
                 msg = exc.get("message")
-                raise JSError(to_string(msg) if msg else "Error")
+                error = JSError(to_string(msg) if msg else "Error")
             else:
-                raise JSError(to_string(exc))
+                error = JSError(to_string(exc))
+            # The value itself, for an enclosing interpreter (eval) to deliver
+            error.thrown_value = exc
+            raise error
 
     def _handle_python_exception(self, error_type: str, message: str) -> None:
         """Convert a Python exception to a JavaScript exception and throw it."""
